@@ -111,8 +111,11 @@ func maxDNSSize(network Network, ednsUDPSize, maxMsgSize uint16) (n int) {
 func filterUnsupportedOptions(o []dns.EDNS0) (supported []dns.EDNS0) {
 	for _, opt := range o {
 		switch code := opt.Option(); code {
-		case dns.EDNS0NSID,
-			dns.EDNS0EXPIRE:
+		case dns.EDNS0NSID:
+			// Don't echo the payload, since a query must not have one, and a
+			// large one would make the response exceed the client's UDP size.
+			supported = append(supported, &dns.EDNS0_NSID{Code: dns.EDNS0NSID})
+		case dns.EDNS0EXPIRE:
 			supported = append(supported, opt)
 		}
 	}
